@@ -279,7 +279,9 @@ def validate(ctx, traces, xlen, kind, nshards=None):
     if not traces:
         return {}
     wd = tlc.workdir("c06rv_%s%d" % (kind, xlen))
-    nsh = max(1, min(nshards or tlc.NCPU, len(traces) // 8 or 1))
+    # one JVM start costs about as much as judging 150 steps
+    nsteps = sum(len(t["steps"]) for t in traces)
+    nsh = max(1, min(nshards or tlc.NCPU, nsteps // 150 or 1, len(traces)))
     shards = [[] for _ in range(nsh)]
     order = sorted(range(len(traces)), key=lambda i: -len(traces[i]["steps"]))
     for k, i in enumerate(order):
